@@ -103,6 +103,7 @@ func DrawWorld(t *rapid.T, cfg WorldCfg) (*World, *Drawn) {
 		}
 		spec.SameSigner = rapid.IntRange(0, 3).Draw(t, "samesigner") == 0
 	}
+	useRealNow := cfg.RealNow && rapid.IntRange(0, 3).Draw(t, "realNow") == 0
 	// five distinct instants anywhere inside the wide windows, drawn first so that validity periods can be laid around them
 	var times *verify.TimeSet
 	tight := false
@@ -114,7 +115,7 @@ func DrawWorld(t *rapid.T, cfg WorldCfg) (*World, *Drawn) {
 		times = &verify.TimeSet{PckCertChain: pick("tChain"), TcbInfo: pick("tTcb"), QeIdentity: pick("tQe"), PckCrl: pick("tPckCrl"), RootCaCrl: pick("tRootCrl")}
 		// a quarter of the worlds are "freshly rolled over": the validity periods of the leaf and of the two collateral
 		// signers (when they are two certificates) are short and lie around their OWN judging time only
-		if !spec.SameSigner && !cfg.RealNow && rapid.IntRange(0, 3).Draw(t, "tightValidityPeriods") == 0 {
+		if !spec.SameSigner && !useRealNow && rapid.IntRange(0, 3).Draw(t, "tightValidityPeriods") == 0 {
 			tight = true
 			around := func(at time.Time, label string) Window {
 				before := rapid.SampledFrom([]time.Duration{time.Second, time.Hour, 30 * 24 * time.Hour}).Draw(t, label+"-before")
@@ -218,6 +219,16 @@ func DrawWorld(t *rapid.T, cfg WorldCfg) (*World, *Drawn) {
 			for i := len(top.Kids) - 1; i > 0; i-- {
 				j := s.Intn(i + 1)
 				top.Kids[i], top.Kids[j] = top.Kids[j], top.Kids[i]
+			}
+			// further members the verifier does not know, with object identifiers NEAR the known ones and values shaped
+			// like an FMSPC / PCE-ID, behind the real members: they must not stand in for the real values
+			if s.Intn(2) == 0 {
+				for _, oid := range [][]int{{1, 2, 840, 113741, 1, 13, 1, 4, 1}, {1, 2, 840, 113741, 1, 13, 14, 4}, {1, 2, 840, 113741, 1, 13, 1, 40}, {1, 2, 840, 113741, 1, 13, 1, 3, 7}}[:1+s.Intn(4)] {
+					vb := s.Bytes([]int{6, 6, 2}[s.Intn(3)])
+					vb[0] |= 0x10
+					top.Kids = append(top.Kids, Seq(OID(oid...), Octet(vb)))
+				}
+				d.add(true, "sgx-extension-with-unknown-neighbour-members")
 			}
 			w.SgxDER = top.Encode()
 			d.add(true, "sgx-extension-elements-permuted")
@@ -350,7 +361,7 @@ func DrawWorld(t *rapid.T, cfg WorldCfg) (*World, *Drawn) {
 			_ = i
 		}
 	}
-	if cfg.RealNow && rapid.IntRange(0, 3).Draw(t, "realNow") == 0 {
+	if useRealNow {
 		w.UseRealNow()
 		d.add(true, "default-time-set")
 	}
